@@ -345,13 +345,16 @@ def cases_for_graph(n, edges, seed, tag, methods=METHODS, helpers=True, orders=N
     return out
 
 
-def _work(chunk):
-    """chunk: list of (n, edges, tag, methods, helpers, seed) -> stats + failures"""
+def _init_worker():
     try:
         import torch
         torch.set_num_threads(1)
     except Exception:
         pass
+
+
+def _work(chunk):
+    """chunk: list of (n, edges, tag, methods, helpers, seed) -> stats + failures"""
     res = {"td": [0, []], "helpers": [0, []], "fails": []}
     for n, edges, tag, methods, helpers, seed in chunk:
         tw = tw_oracle(n, edges)
@@ -462,7 +465,7 @@ def run_bounded(ctx: Ctx) -> Report:
     csize = max(1, min(200, len(small) // (ctx.jobs * 8) + 1))
     chunks = big + [small[i:i + csize] for i in range(0, len(small), csize)]
     if ctx.jobs > 1:
-        with mp.get_context("fork").Pool(ctx.jobs) as pool:
+        with mp.get_context("fork").Pool(ctx.jobs, initializer=_init_worker) as pool:
             results = pool.map(_work, chunks, chunksize=1)
     else:
         results = [_work(c) for c in chunks]
